@@ -337,11 +337,19 @@ func (x *Exec) builtinCopy(fr *Frame, st *State, v *ssa.Call) {
 	rarr := x.declare("carr", asrt)
 	k := "k!c"
 	kt := Term{k, x.S.Idx()}
-	x.assume(Term{fmt.Sprintf("(forall ((%s %s)) (! (= (select %s %s) (ite (and %s %s) (select %s %s) (select %s %s))) :pattern ((select %s %s))))",
+	darrN := x.declareEq("darr", darr)
+	sarrN := x.declareEq("sarr", sarr)
+	x.assume(Term{fmt.Sprintf("(forall ((%s %s)) (! (= (select %s %s) (ite (and %s %s) (select %s %s) (select %s %s))) :pattern ((select %s %s)) :pattern ((select %s %s))))",
 		k, x.S.Idx(), rarr.S, k,
 		x.iLe(doff, kt).S, x.iLt(kt, x.iAdd(doff, n)).S,
-		sarr.S, x.iAdd(soff, x.iSub(kt, doff)).S,
-		darr.S, k, rarr.S, k), "Bool"})
+		sarrN.S, x.iAdd(soff, x.iSub(kt, doff)).S,
+		darrN.S, k, rarr.S, k, darrN.S, k), "Bool"})
+	// the same fact read from the source side: element m of the source lands at doff+m
+	m := "m!c"
+	mt := Term{m, x.S.Idx()}
+	x.assume(Term{fmt.Sprintf("(forall ((%s %s)) (! (=> (and %s %s) (= (select %s %s) (select %s %s))) :pattern ((select %s %s))))",
+		m, x.S.Idx(), x.iLe(soff, mt).S, x.iLt(mt, x.iAdd(soff, n)).S,
+		rarr.S, x.iAdd(doff, x.iSub(mt, soff)).S, sarrN.S, m, sarrN.S, m), "Bool"})
 	x.heapSet(st, hn, mkStore(h, dref, rarr))
 	x.setVal(fr, v, Val{T: n, Typ: v.Type()})
 }
